@@ -4,7 +4,12 @@
    Part 3: a simulation of the whole per-message pipeline, generic in the relation between the
            two messages (Section Sim), instantiated with "respelled" (Part 4) and with
            "re-laid-out" (Part 5).
-   Part 6: concrete twins through [proxy_step]. *)
+   Part 6: concrete twins through [proxy_step]; the counterexample that forces the size condition.
+   Part 7: the event-level statement for a datagram.
+   FOUND: the behaviour is NOT invariant unconditionally -- what is relayed depends on the
+   serialised length (UDP datagram limit), which spelling and layout change.  The invariance
+   theorems therefore carry the condition "both serialised messages on the same side of the
+   limit" (see C17_size_counterexample). *)
 From Coq Require Import List Ascii String ZArith Bool Arith Lia.
 From Model Require Import Bytes BytesLemmas Uri Hdr Message Msg Rx Glob StaticRoute RoundRobin Pins Proxy.
 Import ListNotations.
@@ -2118,3 +2123,62 @@ Print Assumptions C17_pop_via_flat.
 Print Assumptions C17_route_layout.
 Print Assumptions C17_ex_twins.
 Print Assumptions C17_size_counterexample.
+
+(* ================================================================== Part 7: one datagram, event level *)
+(* the same at the level of proxy_step for a datagram: two datagrams that decode to related
+   messages leave the SAME state and produce related outputs (generic in the relation) *)
+Lemma proxy_step_udp_rel (R : message -> message -> Prop) fx c now br st li src sport d1 d2 m1 m2 r1 r2 lc p :
+  (forall e peer pp from rs tcp a b x y, R a b -> ctx_rel R x y ->
+     opt_rel R (pm_written e peer pp from rs tcp a x) (pm_written e peer pp from rs tcp b y) /\
+     (fits_opt (pm_written e peer pp from rs tcp a x) = fits_opt (pm_written e peer pp from rs tcp b y) ->
+      res_ctx_rel R (process_message e peer pp from rs tcp a x) (process_message e peer pp from rs tcp b y))) ->
+  parse_message d1 = Ok (m1, r1) -> parse_message d2 = Ok (m2, r2) -> R m1 m2 ->
+  nth_opt (c_listens c) li = Some lc -> nth_p (st_proxies st) li = Some p ->
+  let e := mk_env fx c (item_rs_of (fx_wiring fx)) li lc now br in
+  let x := {| x_learned := st_learned st; x_p := p; x_conns := st_conns st; x_world := st_world st; x_outs := [] |} in
+  let from := {| t_kind := KUdp; t_addr := lc_addr lc; t_port := lc_udp lc |} in
+  fits_opt (pm_written e src sport from (e_item_rs e) None m1 x) = fits_opt (pm_written e src sport from (e_item_rs e) None m2 x) ->
+  match proxy_step fx c now br st (EvUdp li src sport d1), proxy_step fx c now br st (EvUdp li src sport d2) with
+  | Ok (st1, o1), Ok (st2, o2) => st1 = st2 /\ outs_rel R o1 o2
+  | Err, Err => True
+  | Panic, Panic => True
+  | _, _ => False
+  end.
+Proof.
+  intros Hsim P1 P2 HR Hlc Hp e x from Hf. cbn [proxy_step]. rewrite Hlc, P1, P2. unfold run_ctx. rewrite Hp.
+  fold e. fold from. fold x.
+  destruct (Hsim e src sport from (e_item_rs e) None m1 m2 x x HR (ctx_rel_refl R x)) as [_ S]. specialize (S Hf).
+  destruct (process_message e src sport from (e_item_rs e) None m1 x) as [x1| |];
+    destruct (process_message e src sport from (e_item_rs e) None m2 x) as [x2| |]; cbn [res_ctx_rel] in S; try contradiction; try exact I.
+  destruct S as (S1 & S2 & S3 & S4 & S5). rewrite S1, S2, S3, S4. split; [reflexivity|exact S5].
+Qed.
+Theorem C17_respell_udp : forall fx c now br st li src sport d1 d2 m1 m2 r1 r2 lc p,
+  parse_message d1 = Ok (m1, r1) -> parse_message d2 = Ok (m2, r2) -> respelled m1 m2 ->
+  nth_opt (c_listens c) li = Some lc -> nth_p (st_proxies st) li = Some p ->
+  let e := mk_env fx c (item_rs_of (fx_wiring fx)) li lc now br in
+  let x := {| x_learned := st_learned st; x_p := p; x_conns := st_conns st; x_world := st_world st; x_outs := [] |} in
+  let from := {| t_kind := KUdp; t_addr := lc_addr lc; t_port := lc_udp lc |} in
+  fits_opt (pm_written e src sport from (e_item_rs e) None m1 x) = fits_opt (pm_written e src sport from (e_item_rs e) None m2 x) ->
+  match proxy_step fx c now br st (EvUdp li src sport d1), proxy_step fx c now br st (EvUdp li src sport d2) with
+  | Ok (st1, o1), Ok (st2, o2) => st1 = st2 /\ outs_rel respelled o1 o2
+  | Err, Err => True
+  | Panic, Panic => True
+  | _, _ => False
+  end.
+Proof. intros fx c now br st li src sport d1 d2 m1 m2 r1 r2 lc p. apply proxy_step_udp_rel. exact C17_respell_invariance. Qed.
+Theorem C17_relayout_udp : forall fx c now br st li src sport d1 d2 m1 m2 r1 r2 lc p,
+  parse_message d1 = Ok (m1, r1) -> parse_message d2 = Ok (m2, r2) -> relaid m1 m2 ->
+  nth_opt (c_listens c) li = Some lc -> nth_p (st_proxies st) li = Some p ->
+  let e := mk_env fx c (item_rs_of (fx_wiring fx)) li lc now br in
+  let x := {| x_learned := st_learned st; x_p := p; x_conns := st_conns st; x_world := st_world st; x_outs := [] |} in
+  let from := {| t_kind := KUdp; t_addr := lc_addr lc; t_port := lc_udp lc |} in
+  fits_opt (pm_written e src sport from (e_item_rs e) None m1 x) = fits_opt (pm_written e src sport from (e_item_rs e) None m2 x) ->
+  match proxy_step fx c now br st (EvUdp li src sport d1), proxy_step fx c now br st (EvUdp li src sport d2) with
+  | Ok (st1, o1), Ok (st2, o2) => st1 = st2 /\ outs_rel relaid o1 o2
+  | Err, Err => True
+  | Panic, Panic => True
+  | _, _ => False
+  end.
+Proof. intros fx c now br st li src sport d1 d2 m1 m2 r1 r2 lc p. apply proxy_step_udp_rel. exact C17_relayout_invariance. Qed.
+Print Assumptions C17_respell_udp.
+Print Assumptions C17_relayout_udp.
